@@ -182,7 +182,8 @@ from .rules import detectors  # noqa: E402
              "path-reporting detectors as a complete truth table over the context atoms it reads; (T-VALIDATED) validated_in_block "
              "is a for-all over possible own indices (240 rows); (R-GATE) guard table of search_paths: report gate, the four prunes, "
              "complete successor coverage, retsub continuation at the top frame's return point, persistent arguments; (T-SEARCH) "
-             "the path search on abstract CFG neighbourhoods. The analysis-side clauses are decided under C03/C06-C10. "
+             "the path search on abstract CFG neighbourhoods; (T-GROUPALL) the search over all configured functions of a Tealer object returns "
+             "each function's own paths. The analysis-side clauses are decided under C03/C06-C10. "
              "Not decided: soundness of the per-block contexts for every program (the fixpoint).")
 def c01(ctx, rep):
     _r(detectors.rule_checks_field, ctx, rep)
@@ -190,6 +191,7 @@ def c01(ctx, rep):
     _r(detectors.rule_search_paths_exits, ctx, rep)
     _r(detectors.rule_search_paths_rows, ctx, rep)
     _r(detectors.rule_absolute_index_access, ctx, rep)
+    _r(detectors.rule_group_all, ctx, rep)
     generic_core(ctx, rep)
     _r(optable.rule_stack_effect, ctx, rep)
     _r(cmptables.rule_addr_tables, ctx, rep)
@@ -253,6 +255,7 @@ def c02(ctx, rep):
     _r(detectors.rule_search_paths_exits, ctx, rep)
     _r(detectors.rule_search_paths_rows, ctx, rep)
     _r(detectors.rule_renderings, ctx, rep)
+    _r(detectors.rule_group_all, ctx, rep)
     _r(cfg_rules.rule_successor_dedup, ctx, rep)
     _r(cfg_rules.rule_global_edges_inverse, ctx, rep)
     _r(cfg_rules.rule_cfg_shapes, ctx, rep, rule="T-CFG")
